@@ -195,6 +195,20 @@ fn run_forked(engine: &mut Engine, case: &Case) -> CaseResult {
     if pid == 0 {
         unsafe {
             libc::close(live[0]);
+            // The collector's marker pool is created lazily with available_parallelism()+1 threads;
+            // with 16 drivers in parallel that is 270 threads fighting for 16 cores.  Restrict the
+            // case child to SVWORKER_CPUS (default 2) cpus chosen by pid: the pool then has 3
+            // markers (still parallel marking) and a full collection costs ~0.3 ms instead of ~4.
+            let ncpu = libc::sysconf(libc::_SC_NPROCESSORS_ONLN).max(1) as usize;
+            let want: usize = std::env::var("SVWORKER_CPUS").ok().and_then(|v| v.parse().ok()).unwrap_or(2);
+            if want > 0 && want < ncpu {
+                let mut set: libc::cpu_set_t = std::mem::zeroed();
+                let base = (libc::getpid() as usize * want) % ncpu;
+                for k in 0..want {
+                    libc::CPU_SET((base + k) % ncpu, &mut set);
+                }
+                libc::sched_setaffinity(0, std::mem::size_of::<libc::cpu_set_t>(), &set);
+            }
         }
         child_main(engine, case, res_fd, out_fd, err_fd);
     }
